@@ -7,5 +7,5 @@ sed -i "$2" $S/$1
 if diff -q /repo/$1 $S/$1 >/dev/null; then echo "MUTATION DID NOT APPLY"; rm -rf $S; exit 9; fi
 diff /repo/$1 $S/$1 | head -6
 shift; shift
-PYVC_REPO=$S /verif/check "$@" | grep -v "^  failed obligation" | tail -8 || true
+PYVC_EVIDENCE_DIR=$S/evidence PYVC_REPLAY_DIR=$S/replays PYVC_REPO=$S /verif/check "$@" | grep -v "^  failed obligation" | tail -8 || true
 rm -rf $S
